@@ -43,15 +43,36 @@ def _period(v: float, floor: float) -> float:
     return v
 
 
-def _mesh(net, nodes, p, k0=0, loss=0.0, bw=10_000_019.0):
+def _below(v: float, ceil: float) -> float:
+    """Divide by ten until <= ceil (never below one nanosecond)."""
+    while v > ceil:
+        v /= 10.0
+    return max(v, 1e-9)
+
+
+def _proportion(p, end, mode):
+    """(link latency fn, store latency fn) for sibling parameters out of proportion.
+
+    mode None: drawn latencies as they are.  'slow_store': store latency >> link latency.
+    'fast_store': store latency << link latency.  Values keep the drawn mantissa (powers of ten).
+    """
+    if mode is None:
+        return (lambda k: p.lat(k)), (lambda k: p.lat(k))
+    big = lambda k: _period(p.lat(k), end / 80.0)
+    small = lambda k: _below(p.lat(k), end / 80.0 / 500.0)
+    return (small, big) if mode == "slow_store" else (big, small)
+
+
+def _mesh(net, nodes, p, k0=0, loss=0.0, bw=10_000_019.0, lat_fn=None, jitter=True):
     k = k0
     links = []
+    lat_fn = lat_fn or (lambda j: p.lat(j))
     for i, a in enumerate(nodes):
         for b in nodes[i + 1 :]:
             link = NetworkLink(
                 name=f"l_{a.name}_{b.name}",
-                latency=ConstantLatency(p.lat(k)),
-                jitter=ExponentialLatency(p.lat(k + 1)),
+                latency=ConstantLatency(lat_fn(k)),
+                jitter=ExponentialLatency(lat_fn(k + 1)) if jitter else None,
                 bandwidth_bps=bw,
                 packet_loss_rate=loss,
             )
@@ -61,8 +82,9 @@ def _mesh(net, nodes, p, k0=0, loss=0.0, bw=10_000_019.0):
     return links
 
 
-def _store(name, p, i):
-    return KVStore(name, read_latency=p.lat(i), write_latency=p.lat(i + 1))
+def _store(name, p, i, lat_fn=None):
+    lat_fn = lat_fn or (lambda j: p.lat(j))
+    return KVStore(name, read_latency=lat_fn(i), write_latency=lat_fn(i + 1))
 
 
 def _client(name, plan):
@@ -98,40 +120,59 @@ def _partition_proc(net, group_a, group_b, start_s, dur_s, asymmetric=False):
 # primary / backup
 
 
-def _primary_backup(mode: ReplicationMode, default_loss: float, with_partition: bool):
+def _primary_backup(mode, default_loss: float, with_partition: bool, n_default: int = 2, proportion=None, same_link=False):
+    """`mode` None: taken from x.v.  Backups = count(0) (1..12), clients = count(1) (1..5).
+    `same_link`: every primary->backup link has the same latency and no jitter (fan-out of n
+    replication messages that land on one nanosecond, acks come back on one nanosecond)."""
+
     def build(seed, params):
         p = P(params, seed)
         rng = random.Random(seed)
+        end = p.end()
+        the_mode = mode or list(ReplicationMode)[int(p.x("v", seed)) % 3]
+        n_b = p.count(0, n_default, lo=2 if with_partition else 1, hi=12)
+        n_c = p.count(1, 3, lo=1, hi=5)
+        link_lat, store_lat = _proportion(p, end, proportion)
         net = Network(name="net")
         backups: list = []
-        ps = _store("primary_store", p, 0)
-        primary = PrimaryNode("primary", store=ps, backups=backups, network=net, mode=mode)
-        bstores = [_store(f"backup{i}_store", p, 2 + i) for i in range(2)]
+        ps = _store("primary_store", p, 0, store_lat)
+        primary = PrimaryNode("primary", store=ps, backups=backups, network=net, mode=the_mode)
+        bstores = [_store(f"backup{i}_store", p, 0 if same_link else 2 + i, store_lat) for i in range(n_b)]
         # the list handed to the primary is filled after construction (backups need the primary)
-        backups.append(BackupNode("backup0", store=bstores[0], network=net, primary=primary, serve_reads=True))
-        backups.append(BackupNode("backup1", store=bstores[1], network=net, primary=primary, serve_reads=bool(p.x("b1_reads", True))))
-        _mesh(net, [primary, *backups], p, k0=4, loss=float(p.x("loss", default_loss)))
+        for i in range(n_b):
+            reads = True if i != 1 else bool(p.x("b1_reads", True))
+            backups.append(BackupNode(f"backup{i}", store=bstores[i], network=net, primary=primary, serve_reads=reads))
+        if same_link:
+            for b in backups:
+                net.add_bidirectional_link(primary, b, NetworkLink(name=f"l_{b.name}", latency=ConstantLatency(link_lat(2))))
+        else:
+            _mesh(net, [primary, *backups], p, k0=4, loss=float(p.x("loss", default_loss)), lat_fn=link_lat)
         arr = p.arrivals(12)
 
         def plan(i):
             r = i % 4
             key = KEYS[(i // 4) % len(KEYS)] if rng.random() < 0.5 else KEYS[0]
+            if i % 9 == 8:
+                key = "never_written"
             if r == 3:
-                return (backups[i % 2], "Read", key)
-            if r == 2:
+                return (backups[i % n_b], "Read", key)
+            if r == 2 or key == "never_written":
                 return (primary, "Read", key)
             return (primary, "Write", key)
 
-        clients = [_client(f"cli{i}", plan) for i in range(3)]
+        clients = [_client(f"cli{i}", plan) for i in range(n_c)]
         ents = [net, primary, *backups, ps, *bstores, *clients]
-        comps = {"primary": primary, "backup0": backups[0], "backup1": backups[1], "net": net}
+        comps = {"primary": primary, "net": net, **{b.name: b for b in backups}}
         if with_partition:
-            pp = _partition_proc(net, [primary], [backups[1]], p.lat(0) * 0.5, p.lat(4) + p.lat(5) + p.hold())
+            pp = _partition_proc(net, [primary], [backups[1]], link_lat(0) * 0.5, link_lat(4) + link_lat(5) + p.hold())
             ents.append(pp)
             comps["partitioner"] = pp
-        sim = make_sim(ents, p.end())
+        sim = make_sim(ents, end)
         for i, t in enumerate(arr):
-            sim.schedule(ev(t, "start", clients[i % 3], worker=i))
+            sim.schedule(ev(t, "start", clients[i % n_c], worker=i))
+        # reads of a key nobody ever wrote, on every replica
+        for b in [primary, *backups]:
+            sim.schedule(ev(max(arr), "Read", b, key="never_written"))
         if with_partition:
             sim.schedule(ev(min(arr), "start", pp))
         # an unknown event type and a stray ack are tolerated by the handlers
@@ -145,6 +186,10 @@ scenario("replication.primary_backup_async", "replication")(_primary_backup(Repl
 scenario("replication.primary_backup_semi_sync", "replication")(_primary_backup(ReplicationMode.SEMI_SYNC, 0.05, False))
 scenario("replication.primary_backup_sync", "replication")(_primary_backup(ReplicationMode.SYNC, 0.0, False))
 scenario("replication.primary_backup_sync_partition", "replication")(_primary_backup(ReplicationMode.SYNC, 0.02, True))
+# wide: many backups on identical links (fan-out / fan-in on one nanosecond), store latency out of proportion
+scenario("replication.primary_fanout_same_links", "replication")(_primary_backup(None, 0.0, False, n_default=9, same_link=True))
+scenario("replication.primary_backup_slow_store", "replication")(_primary_backup(None, 0.0, False, n_default=3, proportion="slow_store"))
+scenario("replication.primary_backup_fast_store", "replication")(_primary_backup(None, 0.02, False, n_default=3, proportion="fast_store"))
 
 
 @scenario("replication.primary_single_backup_modes", "replication")
@@ -171,20 +216,29 @@ def primary_single_backup(seed, params):
 # chain replication
 
 
-def _chain(craq: bool, n_nodes: int, default_loss: float):
+def _chain(craq: bool, n_default: int, default_loss: float, proportion=None, same=False):
+    """Chain length = count(0) (2..12).  `same`: every store and every link has the same latency
+    (no jitter), so the commit time is a sum of n identical terms."""
+
     def build(seed, params):
         p = P(params, seed)
         rng = random.Random(seed)
+        end = p.end()
+        n_nodes = p.count(0, n_default, lo=2, hi=12)
+        link_lat, store_lat = _proportion(p, end, proportion)
         net = Network(name="net")
         stores = []
 
         def mk_store(name):
-            s = _store(name, p, len(stores))
+            s = _store(name, p, 0 if same else len(stores), store_lat)
             stores.append(s)
             return s
 
         nodes = build_chain([f"n{i}" for i in range(n_nodes)], net, mk_store, craq_enabled=craq)
-        _mesh(net, nodes, p, k0=3, loss=float(p.x("loss", default_loss)))
+        if same:
+            _mesh(net, nodes, p, k0=2, lat_fn=lambda k: link_lat(2), jitter=False, bw=None)
+        else:
+            _mesh(net, nodes, p, k0=3, loss=float(p.x("loss", default_loss)), lat_fn=link_lat)
         head, tail = nodes[0], nodes[-1]
         arr = p.arrivals(12)
 
@@ -193,6 +247,8 @@ def _chain(craq: bool, n_nodes: int, default_loss: float):
             key = KEYS[0] if rng.random() < 0.6 else KEYS[1 + i % 2]
             if r == 4:
                 return (nodes[1], "Write", key)  # write to a non-head node: error reply
+            if i % 11 == 10:
+                return (nodes[i % n_nodes], "Read", "never_written")
             if r == 3:
                 return (nodes[i % n_nodes], "Read", key)  # read racing the write (dirty key under CRAQ)
             if r == 2:
@@ -200,13 +256,15 @@ def _chain(craq: bool, n_nodes: int, default_loss: float):
             return (head, "Write", key)
 
         clients = [_client(f"cli{i}", plan) for i in range(3)]
-        sim = make_sim([net, *nodes, *stores, *clients], p.end())
+        sim = make_sim([net, *nodes, *stores, *clients], end)
         for i, t in enumerate(arr):
             sim.schedule(ev(t, "start", clients[i % 3], worker=i))
         # second wave of reads a positive time later: keys are dirty on head/middle while the ack travels
-        t_late = min(arr) + int(p.lat(0) * 1e9) + 1
+        t_late = min(arr) + int(store_lat(0) * 1e9) + 1
         for j in range(3):
             sim.schedule(ev(t_late, "Read", nodes[j % (n_nodes - 1)], key=KEYS[0]))
+        for nd in nodes:  # a key nobody wrote, on every node
+            sim.schedule(ev(max(arr), "Read", nd, key="never_written"))
         comps = {n.name: n for n in nodes}
         comps["net"] = net
         return Scenario(sim, comps, "replication", True, len(arr) + 3)
@@ -218,6 +276,11 @@ scenario("replication.chain_three", "replication")(_chain(False, 3, 0.0))
 scenario("replication.chain_four_lossy", "replication")(_chain(False, 4, 0.05))
 scenario("replication.chain_craq", "replication")(_chain(True, 4, 0.0))
 scenario("replication.chain_craq_lossy", "replication")(_chain(True, 3, 0.05))
+# wide: long chains of identical hops, store latency out of proportion with the links
+scenario("replication.chain_long_same_hops", "replication")(_chain(False, 9, 0.0, same=True))
+scenario("replication.chain_craq_long_same_hops", "replication")(_chain(True, 10, 0.0, same=True))
+scenario("replication.chain_slow_store", "replication")(_chain(True, 3, 0.0, proportion="slow_store"))
+scenario("replication.chain_fast_store", "replication")(_chain(False, 5, 0.02, proportion="fast_store"))
 
 
 @scenario("replication.chain_manual_two", "replication")
@@ -230,14 +293,35 @@ def chain_manual_two(seed, params):
     tail = ChainNode("tail", store=s1, network=net, role=ChainNodeRole.TAIL, craq_enabled=True)
     head.next_node, tail.prev_node = tail, head
     lone = ChainNode("lone", store=s2, network=net, role=ChainNodeRole.HEAD, craq_enabled=True)
+    # single-node "chains": a HEAD without successor (head and tail at once), a TAIL without
+    # predecessor (a Propagate has nobody to acknowledge to), a MIDDLE without neighbours
+    s3, s4 = _store("s3", p, 1), _store("s4", p, 3)
+    lone_tail = ChainNode("lone_tail", store=s3, network=net, role=ChainNodeRole.TAIL, craq_enabled=bool(int(p.x("v", seed)) % 2))
+    lone_mid = ChainNode("lone_mid", store=s4, network=net, role=ChainNodeRole.MIDDLE)
     _mesh(net, [head, tail], p, k0=5)
     arr = p.arrivals(8)
-    plan = lambda i: [(head, "Write", "k"), (lone, "Write", "k"), (head, "Read", "k"), (lone, "Read", "k")][i % 4]
+    ops = [
+        (head, "Write", "k"),
+        (lone, "Write", "k"),
+        (head, "Read", "k"),
+        (lone, "Read", "k"),
+        (lone_tail, "Write", "k"),  # not a head: error reply
+        (lone_tail, "Read", "never_written"),
+        (lone_mid, "Read", "k"),
+        (lone, "Read", "never_written"),
+    ]
+    plan = lambda i: ops[i % len(ops)]
     clients = [_client(f"cli{i}", plan) for i in range(2)]
-    sim = make_sim([net, head, tail, lone, s0, s1, s2, *clients], p.end())
+    sim = make_sim([net, head, tail, lone, lone_tail, lone_mid, s0, s1, s2, s3, s4, *clients], p.end())
     for i, t in enumerate(arr):
         sim.schedule(ev(t, "start", clients[i % 2], worker=i))
-    return Scenario(sim, {"head": head, "tail": tail, "lone": lone}, "replication", True, len(arr))
+    for j, nd in enumerate([lone_tail, lone_mid]):
+        sim.schedule(ev(min(arr), "Propagate", nd, key="k", value=j, seq=1))
+        sim.schedule(ev(min(arr), "WriteAck", nd, key="k", seq=99))  # ack for a write nobody is waiting on
+        sim.schedule(ev(min(arr), "CommitNotify", nd, key="k", seq=1))
+    return Scenario(
+        sim, {"head": head, "tail": tail, "lone": lone, "lone_tail": lone_tail, "lone_mid": lone_mid}, "replication", True, len(arr) + 6
+    )
 
 
 # ----------------------------------------------------------------------
@@ -264,27 +348,45 @@ _RESOLVERS = {
 }
 
 
-def _multi_leader(resolver: str, n: int, default_loss: float, with_partition: bool):
+def _multi_leader(resolver: str, n_default: int, default_loss: float, with_partition: bool, proportion=None, same_links=False):
+    """Leaders = count(0) (1..12; a partition needs 2).  proportion 'ae_fast': anti-entropy interval
+    << link latency (several rounds in flight at once); 'ae_slow': interval >> link latency."""
+
     def build(seed, params):
         p = P(params, seed)
         rng = random.Random(seed)
         end = p.end()
+        n = p.count(0, n_default, lo=2 if with_partition else 1, hi=5 if proportion == "ae_fast" else 12)
         net = Network(name="net")
         stores = [_store(f"ls{i}", p, 2 * i) for i in range(n)]
-        # x.raw_intervals: use the drawn latencies unscaled (reproducer for sub-nanosecond intervals)
-        ae = [p.lat(6 + i) if p.x("raw_intervals", False) else _period(p.lat(6 + i), end / 150.0) for i in range(n)]
+        link_lat = None
+        if proportion == "ae_fast":
+            ae = [_period(p.lat(6 + i), end / 400.0) for i in range(n)]
+            link_lat = lambda k: _period(p.lat(k), end / 10.0)
+        elif proportion == "ae_slow":
+            ae = [_period(p.lat(6 + i), end / 6.0) for i in range(n)]
+            link_lat = lambda k: _below(p.lat(k), end / 6.0 / 2000.0)
+        else:
+            # x.raw_intervals: use the drawn latencies unscaled
+            ae = [p.lat(6 + i) if p.x("raw_intervals", False) else _period(p.lat(6 + i), end / 150.0) for i in range(n)]
         leaders = [
             LeaderNode(f"leader{i}", store=stores[i], network=net, conflict_resolver=_RESOLVERS[resolver](), anti_entropy_interval=ae[i])
             for i in range(n)
         ]
         for ld in leaders:
             ld.add_peers([o for o in leaders if o is not ld])
-        _mesh(net, leaders, p, k0=1, loss=float(p.x("loss", default_loss)))
+        if same_links:
+            # identical links without jitter: the n-1 replication messages of a write land on one nanosecond
+            _mesh(net, leaders, p, k0=1, lat_fn=lambda k: p.lat(1), jitter=False, bw=None)
+        else:
+            _mesh(net, leaders, p, k0=1, loss=float(p.x("loss", default_loss)), lat_fn=link_lat)
         arr = p.arrivals(12)
 
         def plan(i):
             # same key, same nanosecond, different leaders => concurrent versions
             key = KEYS[0] if rng.random() < 0.7 else KEYS[1]
+            if i % 10 == 9:
+                return (leaders[i % n], "Read", "never_written")
             if i >= 1000:  # writes issued on both sides of the partition
                 return (leaders[(i - 1000) % n], "Write", KEYS[0])
             if i % 4 == 3:
@@ -331,6 +433,11 @@ scenario("replication.multi_leader_vc_merge", "replication")(_multi_leader("vc_m
 scenario("replication.multi_leader_vc_default", "replication")(_multi_leader("vc_default", 2, 0.1, False))
 scenario("replication.multi_leader_custom_partition", "replication")(_multi_leader("custom", 3, 0.02, True))
 scenario("replication.multi_leader_lww_partition", "replication")(_multi_leader("lww", 4, 0.0, True))
+# wide: many leaders, anti-entropy interval out of proportion with the link latency
+scenario("replication.multi_leader_many", "replication")(_multi_leader("lww", 10, 0.0, False))
+scenario("replication.multi_leader_many_same_links", "replication")(_multi_leader("vc_merge", 9, 0.0, False, same_links=True))
+scenario("replication.multi_leader_ae_faster_than_links", "replication")(_multi_leader("vc_default", 3, 0.0, False, proportion="ae_fast"))
+scenario("replication.multi_leader_ae_slower_than_links", "replication")(_multi_leader("lww", 3, 0.02, False, proportion="ae_slow"))
 
 
 @scenario("replication.anti_entropy_one_ns_interval", "replication")
